@@ -3,6 +3,7 @@ import json, sys, collections
 d = json.load(open(sys.argv[1])) if len(sys.argv) > 1 and sys.argv[1] != '-' else json.load(sys.stdin)
 print(d['unit'], d['status'], d.get('error', ''), 'wall', d.get('wall_s'))
 for l in d.get('traceback', []): print('  ', l)
+if not all(d.get('edits_applied', [])): print('  WARNING: an --edit did not match any source text:', d.get('edits_applied'))
 c = collections.Counter((o['status']) for o in d.get('obligations', []))
 print(dict(c), 'functions', [(f['target'].split('::')[1], f.get('paths')) for f in d.get('functions', [])], d.get('info'))
 seen = set()
